@@ -955,11 +955,6 @@ class InlineCall(StrCompareMixin, pmbl.CallWithKwargs):
 
     mapper_method = intern('map_inline_call')
 
-    def __hash__(self):
-        # A custom `__hash__` function to protect us from unhashasble
-        # dicts that `pmbl.CallWithKwargs` uses internally
-        return hash(self.__getinitargs__())
-
     @property
     def name(self):
         return self.function.name
